@@ -350,9 +350,10 @@ Definition writes_in_pkg (pkg : string) (l : list site4) : list site2 :=
 Definition prof_transpiler_writes : list site2 := [("prof/transpiler:populateTypeId", "prof/parser.Script.Selectors")].
 
 (* ---------- one context whose id counter continues: when is the statement EXACTLY the fresh one? ----------
-   PlannerContext.Id() is drawn by SimpleLabelFilterPlanner, MainRenewPlanner and ByWithoutPlanner only
-   (CTE aliases subsel_n, pre_by_without_n, labels_n, pre_without_n); any planner this file does not know is
-   counted as drawing ids. *)
+   PlannerContext.Id() is drawn by SimpleLabelFilterPlanner, MainRenewPlanner and ByWithoutPlanner
+   (CTE aliases subsel_n, pre_by_without_n, labels_n, pre_without_n) and by LineFormatPlanner (the name of the Go template
+   object: not printed, but it shifts the numbers drawn above it; PLineFormatP falls under the last clause); any planner
+   this file does not know is counted as drawing ids. *)
 Fixpoint draws_ids (p : planner) : bool :=
   match p with
   | PStreamSelect _ | PMainInit | PTimeSeriesInit | PMetrics15 _ _ => false
